@@ -29,6 +29,11 @@ h2_wire = z3.Function("h2_wire", IntS, BytesS)  # ghost: bytes queued at version
 
 
 def register(reg):
+    # h2.errors.ErrorCodes (IntEnum; values from RFC 7540 section 7)
+    for _n, _v in (("NO_ERROR", 0), ("PROTOCOL_ERROR", 1), ("INTERNAL_ERROR", 2), ("FLOW_CONTROL_ERROR", 3), ("SETTINGS_TIMEOUT", 4),
+                   ("STREAM_CLOSED", 5), ("FRAME_SIZE_ERROR", 6), ("REFUSED_STREAM", 7), ("CANCEL", 8), ("COMPRESSION_ERROR", 9),
+                   ("CONNECT_ERROR", 10), ("ENHANCE_YOUR_CALM", 11), ("INADEQUATE_SECURITY", 12), ("HTTP_1_1_REQUIRED", 13)):
+        reg.consts["h2.errors.ErrorCodes." + _n] = VInt(_v)
     reg.ext_class(X)
     reg.ext_class(EV)
     reg.ext_class(SETTINGS)
